@@ -35,6 +35,13 @@ type Env struct {
 	T    *simkit.Tape
 	Pool *PoisonPool
 	Reg  *Registry
+	// OnlyG: when set, harness matchers/handlers record and check only when
+	// running on a goroutine whose name has this prefix (e.g. the first UDP
+	// association); others just behave.
+	OnlyG string
+	// TimerLatency is added to every timer the code under test arms (real
+	// timers fire late, never exactly on time; the bubble's are exact).
+	TimerLatency time.Duration
 	Log  *zap.Logger
 	Ctx  caddy.Context
 	stop context.CancelFunc
@@ -42,7 +49,7 @@ type Env struct {
 
 func NewEnv(seed uint64, tape *simkit.Tape) *Env {
 	s := simkit.New(seed, tape)
-	e := &Env{S: s, T: tape, N: simnet.New(s), Pool: NewPoisonPool(s), Log: zap.NewNop(), Reg: NewRegistry()}
+	e := &Env{S: s, T: tape, N: simnet.New(s), Pool: NewPoisonPool(s), Log: zap.NewNop(), Reg: NewRegistry(), TimerLatency: time.Microsecond}
 	return e
 }
 
@@ -88,6 +95,13 @@ func (e *Env) install() {
 		}
 		return c, nil
 	}
+	skew := func(d time.Duration) time.Duration {
+		if d < 0 {
+			return d
+		}
+		return d + e.TimerLatency
+	}
+	layer4.VerifTimerSkewHook, l4proxy.VerifTimerSkewHook, l4tee.VerifTimerSkewHook, l4throttle.VerifTimerSkewHook, socks5.VerifTimerSkewHook = skew, skew, skew, skew, skew
 	layer4.VerifGoHook, layer4.VerifYieldHook, layer4.VerifPickHook = goHook, yield, pick
 	layer4.VerifPoolGetHook, layer4.VerifPoolPutHook = e.Pool.Get, e.Pool.Put
 	l4proxy.VerifGoHook, l4proxy.VerifYieldHook, l4proxy.VerifPickHook = goHook, yield, pick
@@ -119,6 +133,7 @@ type simDenied struct{}
 func (*simDenied) Error() string { return "simulated: operation not available" }
 
 func (e *Env) uninstall() {
+	layer4.VerifTimerSkewHook, l4proxy.VerifTimerSkewHook, l4tee.VerifTimerSkewHook, l4throttle.VerifTimerSkewHook, socks5.VerifTimerSkewHook = nil, nil, nil, nil, nil
 	layer4.VerifGoHook, layer4.VerifYieldHook, layer4.VerifPickHook = nil, nil, nil
 	layer4.VerifPoolGetHook, layer4.VerifPoolPutHook = nil, nil
 	l4proxy.VerifGoHook, l4proxy.VerifYieldHook, l4proxy.VerifPickHook = nil, nil, nil
